@@ -356,6 +356,26 @@ def f_build_args(ctx: Ctx):
                    where(fi, fi.node), sample="absent, or part of the stored authority")
 
 
+def _table_contradiction(model, facts):
+    """True when the facts hold `x in B` and `x not in A` for foldable constant collections with B <= A."""
+    from ..fold import CannotFold, Folder
+    fold = Folder(model)
+    ins, outs = [], []
+    for k, v in facts.items():
+        if k[0] == "cmp" and k[1] in ("In", "NotIn") and v is not None:
+            member = (k[1] == "In") == bool(v)
+            try:
+                coll = fold.fold(k[3])
+            except (CannotFold, TypeError):
+                continue
+            try:
+                coll = frozenset(coll)
+            except TypeError:
+                continue
+            (ins if member else outs).append((k[2], coll))
+    return any(x == y and b <= a for x, b in ins for y, a in outs)
+
+
 def f3_join(ctx: Ctx, only=None):
     """`only`: the obligation groups the calling property depends on (C15: the dot-segment removal of the merged path)."""
     model = ctx.model
@@ -393,6 +413,16 @@ def f3_join(ctx: Ctx, only=None):
             ob("authority", "reference with authority", ok,
                "a reference with an authority must contribute its authority, path, query and fragment unchanged", node,
                "authority/path/query/fragment all from the reference")
+            continue
+        if truth(rn, f) is True:
+            # the reference HAS an authority and yet this path resolves it as a path-only reference. Legitimate only if the path
+            # cannot be taken: its guards say `x not in A` and `x in B` for two constant tables with B a subset of A (the code's
+            # own "uses_authority is a superset of uses_relative")
+            if _table_contradiction(model, f):
+                continue
+            ob("ref-authority", "reference with an authority resolved as a path-only reference", False,
+               "a reference that carries an authority (`//host/...`) is merged into the base instead of replacing authority, path "
+               "and query (RFC 3986 5.2.2): the scheme tables that guard the two cases do not exclude this combination", node, "")
             continue
         ob("netloc", f"netloc = {show(net)[:40]}", net == bn, "a reference without authority must inherit the base's authority", node, "base authority")
         # relative resolution only against a base of the same scheme, and only for schemes that support it
